@@ -13,6 +13,7 @@ import (
 type EV struct {
 	V Val
 	T types.Type
+	pkgName string // the expression named a package (for pkg.Var)
 }
 
 type evalCtx struct {
@@ -25,6 +26,7 @@ type evalCtx struct {
 	bound  map[string]*Term
 	pkg    *types.Package
 	useLocals bool // identifiers that are locals resolve to their current cell value
+	loopA  *Term  // allocation counter at the entry of the loop an invariant belongs to
 	err    *string
 }
 
@@ -105,7 +107,10 @@ func (c *evalCtx) eval(e *Expr) EV {
 		}
 		n := *c
 		n.bound = nb
+		c.vc.activeBound = append(c.vc.activeBound, vars...)
 		body := n.bool(n.eval(e.Args[0]), e)
+		c.vc.activeBound = c.vc.activeBound[:len(c.vc.activeBound)-len(vars)]
+		body = p.RebaseQuant(vars, body)
 		if e.Name == "forall" {
 			return EV{V: scalar(p.Forall(vars, body))}
 		}
@@ -176,6 +181,11 @@ func (c *evalCtx) evalIdent(name string) EV {
 		}
 	}
 	_ = p
+	for _, sp := range c.vc.E.Prog.AllPackages() {
+		if sp.Pkg.Name() == name && c.vc.E.inRepo(sp.Pkg) {
+			return EV{pkgName: name, V: scalar(c.vc.P.Int(0))}
+		}
+	}
 	return c.fail("unknown identifier %q", name)
 }
 
@@ -258,6 +268,22 @@ func derefStruct(t types.Type) (types.Type, bool) {
 
 func (c *evalCtx) evalField(base EV, name string, e *Expr) EV {
 	vc := c.vc
+	if base.pkgName != "" {
+		var found *ssa.Global
+		for _, sp := range vc.E.Prog.AllPackages() {
+			if sp.Pkg.Name() == base.pkgName {
+				if g, ok := sp.Members[name].(*ssa.Global); ok {
+					if found == nil || vc.E.inRepo(sp.Pkg) {
+						found = g
+					}
+				}
+			}
+		}
+		if found == nil {
+			return c.fail("no package-level variable %s.%s", base.pkgName, name)
+		}
+		return EV{V: vc.loadGlobal(c.st, found), T: found.Type().(*types.Pointer).Elem()}
+	}
 	stT, ok := derefStruct(base.T)
 	if !ok {
 		return c.fail("field .%s of a non-struct (%v) in %s", name, base.T, e)
@@ -306,6 +332,9 @@ func (c *evalCtx) pkgOfType(t types.Type) *types.Package {
 func (c *evalCtx) evalIndex(base, idx EV, e *Expr) EV {
 	vc := c.vc
 	p := vc.P
+	if base.V.K == VScalar && strings.HasPrefix(string(base.V.T.S), "(Array") && idx.V.K == VSlice {
+		return EV{V: scalar(p.Select(base.V.T, vc.bytesContent(c.st, idx.V)))}
+	}
 	i := c.int(idx, e)
 	if base.V.K == VSlice {
 		var et types.Type
@@ -329,6 +358,9 @@ func (c *evalCtx) evalIndex(base, idx EV, e *Expr) EV {
 			m := c.int(base, e)
 			if vs, ok := vc.mapValSort(u); ok {
 				raw := p.Select(p.Select(vc.heapGet(c.st, mapKey(u)+"#val", vs), m), i)
+				if isRefType(u.Elem()) {
+					vc.refAxiom(mapKey(u)+"#val", 2)
+				}
 				return EV{V: scalar(raw), T: u.Elem()}
 			}
 			return c.fail("map value type unsupported in %s", e)
@@ -496,6 +528,23 @@ func (c *evalCtx) evalCall(e *Expr) EV {
 			return EV{V: scalar(vc.bytesContent(c.st, a.V))}
 		}
 		return EV{V: scalar(c.int(a, e))} // strings and arrays are their own content
+	case "bytesof":
+		// content of k[:] for an array value k
+		a := arg(0)
+		if a.T != nil {
+			if at, ok := a.T.Underlying().(*types.Array); ok {
+				return EV{V: scalar(vc.arrayBytes(c.int(a, e), at, a.T))}
+			}
+		}
+		if a.T == nil && a.V.K == VScalar && a.V.T.S == SInt {
+			// untyped (quantified) key: a [32]byte ledger key
+			t := types.NewArray(types.Typ[types.Uint8], 32)
+			return EV{V: scalar(vc.arrayBytes(a.V.T, t, t))}
+		}
+		return c.fail("bytesof() needs an array value in %s", e)
+	case "key32":
+		// the [32]byte value whose bytes are the given content (inverse of bytesof)
+		return EV{V: scalar(p.App("arrofbytes$[32]uint8", SInt, c.contentOf(arg(0), e)))}
 	case "has":
 		m, k := arg(0), arg(1)
 		if m.T != nil {
@@ -511,6 +560,12 @@ func (c *evalCtx) evalCall(e *Expr) EV {
 			return c.fail("fresh() needs a pre-state")
 		}
 		return EV{V: scalar(p.Gt(c.refOf(a, e), vc.allocCounter(c.old)))}
+	case "loopfresh":
+		// allocated since the entry of the loop whose invariant is being evaluated
+		if c.loopA == nil {
+			return c.fail("loopfresh() outside a loop invariant")
+		}
+		return EV{V: scalar(p.Gt(c.refOf(arg(0), e), c.loopA))}
 	case "allocated":
 		a := arg(0)
 		return EV{V: scalar(p.Le(c.refOf(a, e), vc.allocCounter(c.st)))}
@@ -546,12 +601,14 @@ func (c *evalCtx) evalCall(e *Expr) EV {
 		var vt *Term
 		if v.V.K == VSlice {
 			vt = vc.bytesContent(c.st, v.V)
+		} else if v.V.K == VScalar && v.V.T.S == a.V.T.S.elemSort() {
+			vt = v.V.T
 		} else if a.V.T.S.elemSort() == SBool {
 			vt = c.bool(v, e)
 		} else {
 			vt = c.int(v, e)
 		}
-		return EV{V: scalar(p.Store(a.V.T, c.int(arg(1), e), vt))}
+		return EV{V: scalar(p.Store(a.V.T, c.contentOf(arg(1), e), vt))}
 	case "min", "max":
 		a, b := c.int(arg(0), e), c.int(arg(1), e)
 		if name == "min" {
@@ -658,6 +715,7 @@ func (c *evalCtx) resolveType(e *Expr) (types.Type, bool) {
 // evalClause evaluates a boolean clause in the context of a frame (locals visible, parameters = entry values).
 func (vc *VC) evalClause(fr *frame, st *State, cl *Clause, extra map[string]EV) *Term {
 	c := vc.frameCtx(fr, st)
+	c.loopA = vc.curLoopA
 	for k, v := range extra {
 		c.names[k] = v
 	}
@@ -698,4 +756,11 @@ func (vc *VC) frameCtx(fr *frame, st *State) *evalCtx {
 		}
 	}
 	return c
+}
+
+func (c *evalCtx) contentOf(a EV, e *Expr) *Term {
+	if a.V.K == VSlice {
+		return c.vc.bytesContent(c.st, a.V)
+	}
+	return c.int(a, e)
 }
